@@ -261,7 +261,7 @@ func init() {
 	register(&propertySpec{
 		ID:      "C06",
 		Explain: "Static error-flow, must-pass-through and provenance rules for the write-through path between the in-memory state and core.Storage.",
-		Rules:   []ruleFn{ruleStoreErr, ruleStoreAck, rulePersistPrepared("C06"), ruleNsArg, ruleTxScope("storage/bolt"), ruleLoadAll, ruleLoadFresh, ruleRemOrder, ruleBoltErr, ruleParentsValue("C06"), ruleStoreBeforeMem("C06"), ruleRemStoreFirst("C06"), ruleHookBeforeStore("C06"), ruleFactIdxLast("C06"), ruleHooksBeforeLoad, ruleClearAck("C06"), ruleErrRedress("C06"), ruleIndexLoad("C06")},
+		Rules:   []ruleFn{ruleStoreErr, ruleStoreAck, rulePersistPrepared("C06"), ruleNsArg, ruleTxScope("storage/bolt"), ruleLoadAll, ruleLoadFresh, ruleRemOrder, ruleBoltErr, ruleParentsValue("C06"), ruleStoreBeforeMem("C06"), ruleRemStoreFirst("C06"), ruleHookBeforeStore("C06"), ruleFactIdxLast("C06"), ruleHooksBeforeLoad, ruleClearAck("C06"), ruleErrRedress("C06"), ruleIndexLoad("C06"), ruleFactMapOwner("C06")},
 	})
 }
 
@@ -359,11 +359,20 @@ func ruleStoreAck(w *World, r *Report) {
 		}
 		// reset helpers: same-type functions that directly store the fact-map field
 		n := 0
+		_, deleters := factMapHelpers(w, a, owner)
+		if _, isHelper := deleters[fn]; isHelper {
+			continue // `drop(id)`: only forgets; accounted for where it is called
+		}
 		allInstrs(fn, func(in ssa.Instruction) {
 			isRemoval := false
 			if c := callOf(in); c != nil {
 				if b, ok := c.Value.(*ssa.Builtin); ok && b.Name() == "delete" && len(c.Args) > 0 && isFieldLoad(c.Args[0], owner, factField[owner]) {
 					isRemoval = true
+				}
+				if f := c.StaticCallee(); f != nil {
+					if _, isHelper := deleters[f]; isHelper {
+						isRemoval = true
+					}
 				}
 				if f := c.StaticCallee(); f != nil && f != fn && len(c.Args) > 0 && !isFreshAt(c.Args[0], in) {
 					if o2, ok := stateOwnerOf(a, f); ok && o2 == owner && directlyResets(f, owner, factField[owner]) {
@@ -393,6 +402,153 @@ func ruleStoreAck(w *World, r *Report) {
 				r.ok("STORE-ACK", key, w.PosOf(in), "removal from memory is paired with the storage removal on every path")
 			}
 		})
+	}
+}
+
+// factMapHelpers: methods of a state that only keep the fact map (and counters next to it) — no storage call, no hook —
+// and set, or delete, the entry under one of their parameters: `put(id, fact)`, `drop(id)`.  What they do is accounted
+// for where they are called; the map gives the index (in the call's arguments) of the key.
+func factMapHelpers(w *World, a *locAnchors, owner string) (setters, deleters map[*ssa.Function]int) {
+	setters, deleters = map[*ssa.Function]int{}, map[*ssa.Function]int{}
+	ff := stateFactField[owner]
+	if ff == "" {
+		return
+	}
+	for _, fn := range w.Funcs {
+		o, ok := stateOwnerOf(a, fn)
+		if !ok || o != owner || isTestFile(w, fn) || fn.Signature.Recv() == nil || len(fn.Blocks) == 0 {
+			continue
+		}
+		pure := true
+		allInstrs(fn, func(in ssa.Instruction) {
+			c := callOf(in)
+			if c == nil {
+				return
+			}
+			if _, isSt := isStorageCall(w, c); isSt {
+				pure = false
+			}
+			if c.IsInvoke() {
+				pure = false
+			}
+			if f := c.StaticCallee(); f != nil && f.Signature.Recv() != nil && w.IsRulio(f) {
+				if _, isState := stateOwnerOf(a, f); isState {
+					pure = false // calls back into the state: not a leaf helper
+				}
+			}
+		})
+		if !pure {
+			continue
+		}
+		paramIdx := func(v ssa.Value) int {
+			v = resolveSpill(v)
+			for i, p := range fn.Params {
+				if v == ssa.Value(p) {
+					return i
+				}
+			}
+			return -1
+		}
+		allInstrs(fn, func(in ssa.Instruction) {
+			if mu, isMU := in.(*ssa.MapUpdate); isMU && isFieldLoad(mu.Map, owner, ff) {
+				if i := paramIdx(mu.Key); i >= 0 {
+					setters[fn] = i
+				}
+			}
+			if c, isD := isBuiltinCall(in, "delete"); isD && len(c.Call.Args) == 2 && isFieldLoad(c.Call.Args[0], owner, ff) {
+				if i := paramIdx(c.Call.Args[1]); i >= 0 {
+					deleters[fn] = i
+				}
+			}
+		})
+	}
+	return
+}
+
+// FACTMAP-OWNER (C06, C08): once a helper keeps something in step with the fact map, every write of the map goes through it.
+func ruleFactMapOwner(prop string) ruleFn {
+	return func(w *World, r *Report) {
+		r.Rule("FACTMAP-OWNER", "where a state has a helper that sets or deletes an entry of the fact map (or replaces the map) and in the same breath writes another field of the state — a count of the facts with a `deleteWith`, a secondary index — that field is only right as long as every write of the fact map goes through such a helper.  No other function of the state then writes the fact map directly: a Load that fills the map itself leaves the count at zero for a reloaded location, and whatever is decided by the count (`no dependents: skip the cascade`) is decided differently after a restart", 0)
+		a := newLocAnchors(w)
+		for n := range a.stateImp {
+			owner := typeKey(n)
+			ff := stateFactField[owner]
+			if ff == "" {
+				continue
+			}
+			setters, deleters := factMapHelpers(w, a, owner)
+			keeps := map[*ssa.Function]string{}
+			consider := func(fn *ssa.Function) {
+				allInstrs(fn, func(in ssa.Instruction) {
+					st, isS := in.(*ssa.Store)
+					if !isS {
+						return
+					}
+					fn2, f, _, ok := fieldOf(st.Addr)
+					if ok && typeKey(fn2) == owner && f != ff {
+						keeps[fn] = f
+					}
+				})
+			}
+			for fn := range setters {
+				consider(fn)
+			}
+			for fn := range deleters {
+				consider(fn)
+			}
+			key := "type=" + owner
+			if len(keeps) == 0 {
+				r.ok("FACTMAP-OWNER", key, w.Pos(n.Obj().Pos()), "no helper keeps a field in step with the fact map: nothing to bypass")
+				continue
+			}
+			var kept string
+			for _, f := range keeps {
+				kept = f
+			}
+			// helpers that replace the map and reset a kept field count as such helpers, too
+			resetters := map[*ssa.Function]bool{}
+			for _, fn := range w.Funcs {
+				if o, ok := stateOwnerOf(a, fn); !ok || o != owner || isTestFile(w, fn) {
+					continue
+				}
+				resetsMap, resetsKept := false, false
+				allInstrs(fn, func(in ssa.Instruction) {
+					if _, ok := storesToField(in, owner, ff); ok {
+						resetsMap = true
+					}
+					for _, f := range keeps {
+						if _, ok := storesToField(in, owner, f); ok {
+							resetsKept = true
+						}
+					}
+				})
+				if resetsMap && resetsKept {
+					resetters[fn] = true
+				}
+			}
+			bad := 0
+			for _, fn := range w.Funcs {
+				if o, ok := stateOwnerOf(a, fn); !ok || o != owner || isTestFile(w, fn) {
+					continue
+				}
+				if _, is := keeps[fn]; is || resetters[fn] {
+					continue
+				}
+				allInstrs(fn, func(in ssa.Instruction) {
+					direct := writesThroughField(in, owner, ff)
+					if _, ok := storesToField(in, owner, ff); ok && !isFreshAt(addrBase(in.(*ssa.Store).Addr), in) {
+						direct = true
+					}
+					if direct {
+						bad++
+						r.violation("FACTMAP-OWNER", key+" fn="+fname(fn), w.PosOf(in), "the fact map is written here directly, past the helper that keeps `"+kept+"` in step with it: what is decided by `"+kept+"` is wrong from here on (until something else happens to correct it)")
+					}
+				})
+			}
+			if bad == 0 {
+				r.ok("FACTMAP-OWNER", key, w.Pos(n.Obj().Pos()), "every write of the fact map goes through the helpers that keep `"+kept+"`")
+			}
+		}
 	}
 }
 
